@@ -599,10 +599,43 @@ def _c19_project(out):
         return 'st ' + ';'.join(parts)
     if out.startswith('K '):
         return 'V ' + out.split(' # V ')[1]
+    if out == 'L':
+        # L lines (model-free): judged by _c19_free_oracle on the implementation's own output
+        return 'ok'
     return out
 
 
+# ---- C19 L lines (t2): dynamic-macro actions that fire late; no model, oracle on the real run
+def _c19_norm_impl(out):
+    return 'L' if out.startswith('L ') else out
+
+
+def _c19_free_oracle(case, impl):
+    """L lines: (1) after the last input the replay activity ends (a macro that keeps being
+    restarted by its own events replays itself recursively), (2) nothing stays down, (3) no event of
+    a stop key is in a stored macro (the generator taps the stop key only to stop a recording)"""
+    if not case.startswith('C19 L ') or not impl.startswith('L '):
+        return None
+    m = re.search(r' # V rest=(\d) starts=(\d+) clean=(\d)$', impl)
+    if not m:
+        return 'fail unreadable verdict'
+    if m.group(1) != '1':
+        return f'fail the replay keeps being restarted by its own events ({m.group(2)} replay starts, still active or typing 1.5 s after the last input): the macro replays itself recursively'
+    if m.group(3) != '1':
+        return 'fail a key is still down at the OS after the replay'
+    t = case.split()
+    stops = t[4:4 + int(t[3])]
+    st = impl.split(' # st ')[1].split(' # V ')[0]
+    for o in stops:
+        if re.search(r'[PR]' + o + r'\.', st):
+            return f'fail an event of the stop key {o} is in the stored macro: {st}'
+    return 'ok'
+# ---- end C19 L lines
+
+
 def _c19_nontrivial(case, impl):
+    if impl.startswith('L '):
+        return ' # st -' not in impl
     # something was stored, or a replay fed at least one event
     return (' # st -' not in impl and ' # st ' in impl) or bool(re.search(r'\be[+-]\d', impl))
 
@@ -612,6 +645,13 @@ def _c19_stats(cases, impl):
     d = collections.Counter()
     for c, i in zip(cases, impl):
         t = c.split()
+        if t[1] == 'L':
+            d['late_action_e2e'] += 1
+            m = re.search(r'rest=(\d) starts=(\d+)', i)
+            if m:
+                d['late_rest_' + m.group(1)] += 1
+                d['late_replay_started' if m.group(2) != '0' else 'late_no_replay'] += 1
+            continue
         fam = 'unit_ops' if t[1] == 'U' else 'kanata_e2e'
         d[fam] += 1
         d['behaviour_' + ('constant' if t[2] == '0' else 'recorded')] += 1
@@ -656,6 +696,15 @@ def _c19_stats(cases, impl):
 def _c19_shrink(case):
     """drop one op/step at a time (hints and markers stay attached to what follows them)"""
     t = case.split()
+    if t[1] == 'L':
+        ns = int(t[3]); i = 5 + ns
+        head, steps = t[:4 + ns], []
+        while i < len(t):
+            steps.append(t[i:i + 2]); i += 2
+        for j in range(len(steps)):
+            rest = steps[:j] + steps[j + 1:]
+            yield ' '.join(head + [str(len(rest))] + [x for o in rest for x in o])
+        return
     if t[1] == 'U':
         ops, i = [], 5
         while i < len(t):
@@ -690,6 +739,10 @@ def _c19_shrink(case):
 
 def _c19_describe(case):
     t = case.split()
+    if t[1] == 'L':
+        ns = int(t[3])
+        return {'config': bytes.fromhex(t[2]).decode(), 'stop_keys': t[4:4 + ns],
+                'steps': 'd/u = press/release of the key code, t n = n calls of tick_ms(1), w n = wait for the replay to end then n ticks; at the end all keys are released and 3000 ticks run: ' + ' '.join(t[5 + ns:])}
     if t[1] == 'U':
         return ('direct calls of the dynamic_macro.rs functions (b=begin_record_macro id, p=record_press osc, '
                 'r=record_release osc, s=stop_macro n, y=play_macro id, t=tick_record_state, x=tick_replay_state); '
@@ -2148,6 +2201,10 @@ def _c19_os_stream(case, out):
 
 
 PROPS['C19']['determined'] = _c19_os_stream
+PROPS['C19']['norm_impl'] = _c19_norm_impl
+PROPS['C19']['free_oracle'] = _c19_free_oracle
+PROPS['C19']['rule'] += ('; L lines (model-free, real Kanata on a configuration given as text): a dynamic-macro play action (of the macro being recorded, or of another one as control) or the stop action as the tap / hold of a tap-hold, as first / second tap-dance item, or as a plain key typed while another tap-hold is undecided; timeouts {50,100,200}, both delay behaviours, stop pressed before / after the late action has fired; record - type - stop - replay once; oracle: the replay activity ends within 1.5 s of the last input, nothing stays down, no event of the stop key is stored')
+PROPS['C07']['rule'] += ('; dynamic macro recorder (paired loops only): record / hold a key for g ms / stop / replay, g around a tap-hold timeout, flat, with the replay on a layer where the key is a tap-hold, and with a tap-hold key stopped by the stop key; both replay-delay behaviours; random histories over those keys')
 PROPS['C19']['determined_what'] = 'the key events sent to the OS at every step (typing while recording, and the replay)'
 
 
